@@ -741,6 +741,10 @@ func ruleHandOff(c *Check, p *Program, rule string) {
 			if at := atomOf(safe, true); at.Kind == "call" && strings.HasSuffix(at.Name, "isNotConcurrent") && !at.Val {
 				safeOK = true
 			}
+			// or ownership is expressed by a release function: lz4block.Put in concurrent mode (nil only where sequential)
+			if releaseGivenWhenConcurrent(safe) {
+				safeOK = true
+			}
 			c.Cond(!bad && safeOK, rule, key, p.InstrPos(ci), "when the accumulation buffer is handed to a compression goroutine (concurrent mode) the Writer replaces it with a fresh pool buffer before using w.data again, and the goroutine is told it owns the buffer",
 				"path search under !sequential: every path to a return or to the next use of w.data passes w.data = size.Get(); safe is true when concurrent", fmt.Sprintf("path to %s without replacing w.data: %v; ownership flag true when concurrent: %v", where, bad, safeOK))
 		}
@@ -1971,4 +1975,46 @@ func ruleReadFromRelease(c *Check, p *Program, rule string) {
 	}
 	c.Sites += nWrite + nPut + len(deferred)
 	c.Cond(bad == "", rule, "Writer.ReadFrom#released-once", p.Pos(fn.Pos()), "outside the sequential mode ReadFrom does not release a buffer it has handed to the block pipeline (the worker releases it after the block was written)", fmt.Sprintf("%d hand-over(s), %d direct and %d deferred release(s): none reachable with a handed-over buffer outside the sequential guard", nWrite, nPut, len(deferred)), "the release at "+bad+" can run for a buffer that Writer.write has already handed to a compression goroutine: the pool gives it to another block while it is still being compressed and written, and it is released twice")
+}
+
+
+// isPoolPut: v is the function lz4block.Put used as a value.
+func isPoolPut(v ssa.Value) bool {
+	f, ok := v.(*ssa.Function)
+	return ok && f.Pkg != nil && f.Pkg.Pkg.Path() == pkgBlock && f.Name() == "Put"
+}
+
+// releaseGivenWhenConcurrent: v, a release callback handed to Writer.write, is lz4block.Put whenever the Writer is
+// concurrent: the function itself, or a variable that is nil only on edges taken in sequential mode.
+func releaseGivenWhenConcurrent(v ssa.Value) bool {
+	if isPoolPut(v) {
+		return true
+	}
+	ph, ok := v.(*ssa.Phi)
+	if !ok {
+		return false
+	}
+	for i, e := range ph.Edges {
+		if isPoolPut(e) {
+			continue
+		}
+		if !isNilConst(e) {
+			return false
+		}
+		pb := ph.Block().Preds[i]
+		ats := append([]Atom{}, atomsOfBlock(pb)...)
+		if ifi, isIf := pb.Instrs[len(pb.Instrs)-1].(*ssa.If); isIf && len(pb.Succs) == 2 && pb.Succs[0] != pb.Succs[1] {
+			ats = append(ats, atomOf(ifi.Cond, pb.Succs[0] == ph.Block()))
+		}
+		seq := false
+		for _, a := range ats {
+			if a.Kind == "call" && strings.HasSuffix(a.Name, "isNotConcurrent") && a.Val {
+				seq = true
+			}
+		}
+		if !seq {
+			return false
+		}
+	}
+	return true
 }
